@@ -278,12 +278,15 @@ func run(c *core.Ctx) error {
 	r := c.Rand
 	pool := interestingInts(r, numeric.Float64ToInt64, c.Pick(300, 3000))
 	var splits []record
-	nSplit := c.Pick(3000, 40000)
+	nSplit := c.Pick(3600, 40000)
+	ends := endPairs()
 	for i := 0; i < nSplit; i++ {
 		var mn, mx int64
-		if i < len(pool) {
-			mn, mx = pool[i], pool[(i*7+3)%len(pool)]
-			if i%2 == 0 && mn > mx {
+		if i < len(ends) {
+			mn, mx = ends[i][0], ends[i][1]
+		} else if j := i - len(ends); j < len(pool) {
+			mn, mx = pool[j], pool[(j*7+3)%len(pool)]
+			if j%2 == 0 && mn > mx {
 				mn, mx = mx, mn
 			}
 		} else {
